@@ -1,4 +1,5 @@
 import PeptVerif.Spec.ProForma
+import PeptVerif.Lemmas.ParserTotal
 /-!
 Helper lemmas for C01 (round trip of the parser and the serializer). No Mathlib.
 -/
@@ -187,5 +188,338 @@ theorem parseMods_serialize (o c : Char) (hoc : o ≠ c) (hpo : '+' ≠ o) (hpc 
     · rename_i m' rest' hb
       rw [h1] at hb; cases hb
       rw [ih hl.2]
+
+/-! ### the start section, piece by piece -/
+
+/-- `None` stays `None` when nothing is added; otherwise the list is created / extended -/
+def appendOpt (cur : Option (List Mod)) (l : List Mod) : Option (List Mod) :=
+  if l = [] then cur else some (cur.getD [] ++ l)
+
+theorem appendOpt_addMods (cur : Option (List Mod)) (m : Mod) (t : List Mod) :
+    appendOpt (addMods cur [m]) t = appendOpt cur (m :: t) := by
+  unfold appendOpt addMods
+  by_cases ht : t = []
+  · simp [ht]
+  · simp [ht]
+
+theorem parseStart_labile (plus : Bool) (l : List Mod) (hl : l.all (canonMod '{' '}') = true) (acc : Annotation)
+    (rest : List Char) (hrest : ModStop rest) :
+    parseStart true acc (serializeMods '{' '}' plus l ++ rest) =
+      parseStart true { acc with labile := appendOpt acc.labile l } rest := by
+  induction l generalizing acc with
+  | nil => simp [serializeMods, appendOpt]
+  | cons m t ih =>
+    simp only [List.all_cons, Bool.and_eq_true] at hl
+    rw [serializeMods_cons, Mod.serialize_eq_cons]
+    simp only [List.cons_append, List.append_assoc]
+    rw [parseStart.eq_def]
+    have hA : isAA '{' = false := by decide
+    simp [hA]
+    have h1 := parseModBody_serialize '{' '}' (by decide) (by decide) (by decide) plus m hl.1
+      (serializeMods '{' '}' plus t ++ rest) (modStop_serializeMods '{' '}' (by decide) (by decide) plus t rest hrest)
+    split
+    · rename_i e he; rw [h1] at he; cases he
+    · rename_i m' rest' hb
+      rw [h1] at hb; cases hb
+      rw [ih hl.2]
+      simp only [appendOpt_addMods]
+
+/-- static rules and isotope labels are told apart by `@`; multipliers above 1 are rejected -/
+theorem addGlobals_static_isotope (st iso : List Mod) (hst : st.all canonStatic = true)
+    (hiso : iso.all canonIsotope = true) (acc : Annotation) :
+    addGlobals true acc (st ++ iso) =
+      .ok { acc with static := appendOpt acc.static st, isotope := appendOpt acc.isotope iso } := by
+  induction st generalizing acc with
+  | nil =>
+    simp only [List.nil_append]
+    induction iso generalizing acc with
+    | nil => simp [addGlobals, appendOpt]
+    | cons m t ih =>
+      simp only [List.all_cons, Bool.and_eq_true] at hiso
+      obtain ⟨v, mult⟩ := m
+      have h := hiso.1
+      simp only [canonIsotope, Bool.and_eq_true, decide_eq_true_eq, Bool.not_eq_eq_eq_not, Bool.not_true] at h
+      obtain ⟨⟨⟨hm, hs⟩, hat⟩, _⟩ := h
+      cases v with
+      | int i => simp [isStr] at hs
+      | flt r => simp [isStr] at hs
+      | str tx =>
+        simp only [strHasAt] at hat
+        subst hm
+        simp only [addGlobals, hat]
+        simp only [Bool.false_eq_true, ↓reduceIte, show ¬ ((1 : Int) > 1) by decide]
+        rw [ih hiso.2]
+        simp only [appendOpt_addMods]
+  | cons m t ih =>
+    simp only [List.all_cons, Bool.and_eq_true] at hst
+    obtain ⟨v, mult⟩ := m
+    have h := hst.1
+    simp only [canonStatic, Bool.and_eq_true, decide_eq_true_eq] at h
+    obtain ⟨⟨⟨hm, hs⟩, hat⟩, _⟩ := h
+    cases v with
+    | int i => simp [isStr] at hs
+    | flt r => simp [isStr] at hs
+    | str tx =>
+      simp only [strHasAt] at hat
+      subst hm
+      simp only [List.cons_append, addGlobals, hat]
+      simp only [↓reduceIte, show ¬ ((1 : Int) > 1) by decide]
+      rw [ih hst.2]
+      simp only [appendOpt_addMods]
+
+theorem canonStatic_canonMod (m : Mod) (h : canonStatic m = true) : canonMod '<' '>' m = true := by
+  simp only [canonStatic, Bool.and_eq_true, decide_eq_true_eq] at h
+  simp only [canonMod, Bool.and_eq_true, decide_eq_true_eq]
+  exact ⟨by omega, h.2⟩
+
+theorem canonIsotope_canonMod (m : Mod) (h : canonIsotope m = true) : canonMod '<' '>' m = true := by
+  simp only [canonIsotope, Bool.and_eq_true, decide_eq_true_eq] at h
+  simp only [canonMod, Bool.and_eq_true, decide_eq_true_eq]
+  exact ⟨by omega, h.2⟩
+
+/-- one run of `<…>` groups is read by a single `_parse_modifications('<','>')` call and then classified -/
+theorem parseStart_globals (plus : Bool) (g : List Mod) (hg : g ≠ []) (hcan : g.all (canonMod '<' '>') = true)
+    (acc : Annotation) (rest : List Char) (hrest : ModStop rest) (hro : rest.head? ≠ some '<') :
+    parseStart true acc (serializeMods '<' '>' plus g ++ rest) =
+      match addGlobals true acc g with
+      | .error e => .error e
+      | .ok a' => parseStart true a' rest := by
+  cases g with
+  | nil => exact absurd rfl hg
+  | cons m t =>
+    have h2 := parseMods_serialize '<' '>' (by decide) (by decide) (by decide) (by decide) (by decide) plus (m :: t)
+      hcan rest hrest hro
+    rw [serializeMods_cons, Mod.serialize_eq_cons] at h2 ⊢
+    simp only [List.cons_append, List.append_assoc] at h2 ⊢
+    rw [parseStart.eq_def]
+    have hA : isAA '<' = false := by decide
+    simp [hA]
+    split
+    · rename_i e he; rw [h2] at he; cases he
+    · rename_i ms rest' hb
+      rw [h2] at hb; cases hb
+      rfl
+
+/-- `[..][..]?` (unknown position) and `[..][..]-` (N-terminal) -/
+theorem parseStart_brackets (plus : Bool) (u : List Mod) (hu : u ≠ []) (hcan : u.all (canonMod '[' ']') = true)
+    (acc : Annotation) (sep : Char) (hsep : sep = '?' ∨ sep = '-') (rest : List Char) :
+    parseStart true acc (serializeMods '[' ']' plus u ++ sep :: rest) =
+      if sep = '-' then parseStart true { acc with nterm := addMods acc.nterm u } rest
+      else parseStart true { acc with unknown := addMods acc.unknown u } rest := by
+  cases u with
+  | nil => exact absurd rfl hu
+  | cons m t =>
+    have hstop : ModStop (sep :: rest) := by
+      rcases hsep with h | h <;> subst h <;> exact ModStop.cons (by decide) (by decide)
+    have hne : (sep :: rest).head? ≠ some '[' := by
+      rcases hsep with h | h <;> subst h <;> simp
+    have h2 := parseMods_serialize '[' ']' (by decide) (by decide) (by decide) (by decide) (by decide) plus (m :: t)
+      hcan (sep :: rest) hstop hne
+    rw [serializeMods_cons, Mod.serialize_eq_cons] at h2 ⊢
+    simp only [List.cons_append, List.append_assoc] at h2 ⊢
+    rw [parseStart.eq_def]
+    have hA : isAA '[' = false := by decide
+    simp [hA]
+    split
+    · rename_i e he; rw [h2] at he; cases he
+    · rename_i ms rest' hb
+      rw [h2] at hb; cases hb
+      rcases hsep with h | h <;> subst h <;> simp
+
+theorem parseStart_stop (acc : Annotation) (rest : List Char)
+    (h : rest = [] ∨ ∃ c t, rest = c :: t ∧ (isAA c = true ∨ c = '(')) : parseStart true acc rest = .ok (acc, rest) := by
+  rcases h with h | ⟨c, t, h, hc⟩
+  · subst h; rw [parseStart.eq_def]
+  · subst h; rw [parseStart.eq_def]; simp [hc]
+
+theorem isDigit_toNat (c : Char) : c.isDigit = true ↔ 48 ≤ c.toNat ∧ c.toNat ≤ 57 := by
+  unfold Char.isDigit
+  simp only [Bool.and_eq_true, decide_eq_true_eq, ge_iff_le, UInt32.le_iff_toNat_le]
+  show (48 ≤ c.val.toNat ∧ c.val.toNat ≤ 57) ↔ _
+  rfl
+
+theorem isAA_not_digit (c : Char) (h : isAA c = true) : c.isDigit = false := by
+  cases hd : c.isDigit with
+  | false => rfl
+  | true =>
+    rw [isDigit_toNat] at hd
+    simp only [isAA, Bool.and_eq_true, decide_eq_true_eq] at h
+    omega
+
+theorem isAA_ne (c x : Char) (h : isAA c = true) (hx : isAA x = false) : c ≠ x := by
+  intro he; subst he; rw [h] at hx; cases hx
+
+/-- what follows the start section: end of input, a residue or `(` -/
+theorem StartStop.modStop {r : List Char} (h : StartStop r) : ModStop r := by
+  rcases h with h | ⟨c, t, h, hc⟩
+  · subst h; exact ModStop.nil
+  · subst h
+    rcases hc with hc | hc
+    · exact ModStop.cons (isAA_ne c '^' hc (by decide)) (isAA_not_digit c hc)
+    · subst hc; exact ModStop.cons (by decide) (by decide)
+
+theorem StartStop.head_ne {r : List Char} (h : StartStop r) (x : Char) (hx : isAA x = false) (hx2 : x ≠ '(') :
+    r.head? ≠ some x := by
+  rcases h with h | ⟨c, t, h, hc⟩
+  · subst h; simp
+  · subst h
+    rcases hc with hc | hc
+    · simp; exact isAA_ne c x hc hx
+    · subst hc; simp; exact fun h => hx2 h.symm
+
+/-- text of an optional `[..]…sep` section -/
+def optSection (plus : Bool) (sep : Char) : Option (List Mod) → List Char
+  | none => []
+  | some l => serializeMods '[' ']' plus l ++ [sep]
+
+theorem optSection_modStop (plus : Bool) (sep : Char) (hsep : sep = '?' ∨ sep = '-') (x : Option (List Mod))
+    (r : List Char) (hr : ModStop r) : ModStop (optSection plus sep x ++ r) := by
+  cases x with
+  | none => simpa [optSection] using hr
+  | some l =>
+    simp only [optSection, List.append_assoc, List.cons_append, List.nil_append]
+    apply modStop_serializeMods '[' ']' (by decide) (by decide)
+    rcases hsep with h | h <;> subst h <;> exact ModStop.cons (by decide) (by decide)
+
+theorem optSection_head_ne (plus : Bool) (sep : Char) (hsep : sep = '?' ∨ sep = '-') (x : Option (List Mod))
+    (r : List Char) (hr : r.head? ≠ some '<') : (optSection plus sep x ++ r).head? ≠ some '<' := by
+  cases x with
+  | none => simpa [optSection] using hr
+  | some l =>
+    cases l with
+    | nil => rcases hsep with h | h <;> subst h <;> simp [optSection, serializeMods]
+    | cons m t =>
+      simp only [optSection, List.append_assoc]
+      rw [serializeMods_head]; simp
+
+theorem optMods_modStop (o c : Char) (ho1 : o ≠ '^') (ho2 : o.isDigit = false) (plus : Bool)
+    (x : Option (List Mod)) (r : List Char) (hr : ModStop r) : ModStop (optMods o c plus x ++ r) := by
+  cases x with
+  | none => simpa [optMods] using hr
+  | some l => exact modStop_serializeMods o c ho1 ho2 plus l r hr
+
+theorem serializeMods_append (o c : Char) (plus : Bool) (l1 l2 : List Mod) :
+    serializeMods o c plus (l1 ++ l2) = serializeMods o c plus l1 ++ serializeMods o c plus l2 := by
+  simp [serializeMods]
+
+theorem optMods_eq (o c : Char) (plus : Bool) (x : Option (List Mod)) :
+    optMods o c plus x = serializeMods o c plus (x.getD []) := by
+  cases x <;> simp [optMods, serializeMods]
+
+theorem appendOpt_none_getD (p : Mod → Bool) (x : Option (List Mod)) (h : canonGlobal p x = true) :
+    appendOpt none (x.getD []) = x := by
+  cases x with
+  | none => simp [appendOpt]
+  | some l =>
+    simp only [canonGlobal, Bool.and_eq_true, Bool.not_eq_eq_eq_not, Bool.not_true] at h
+    have : l ≠ [] := by intro hl; subst hl; simp at h
+    simp [appendOpt, this]
+
+theorem canonGlobal_all (p : Mod → Bool) (x : Option (List Mod)) (h : canonGlobal p x = true) :
+    (x.getD []).all p = true := by
+  cases x with
+  | none => simp
+  | some l => simp only [canonGlobal, Bool.and_eq_true] at h; simpa using h.2
+
+theorem canonOptMods_some (o c : Char) (l : List Mod) (h : canonOptMods o c (some l) = true) :
+    l ≠ [] ∧ l.all (canonMod o c) = true := by
+  simp only [canonOptMods, Bool.and_eq_true, Bool.not_eq_eq_eq_not, Bool.not_true] at h
+  refine ⟨?_, h.2⟩
+  intro hl; subst hl; simp at h
+
+/-- **start section**: labile, static, isotope, unknown-position and N-terminal modifications written by
+`_serialize_annotation_start` are read back by `_parse_sequence_start` into a fresh accumulator -/
+theorem parseStart_sections (plus : Bool) (lab st iso unk nt : Option (List Mod))
+    (h1 : canonOptMods '{' '}' lab = true) (h2 : canonGlobal canonStatic st = true)
+    (h3 : canonGlobal canonIsotope iso = true) (h4 : canonOptMods '[' ']' unk = true)
+    (h5 : canonOptMods '[' ']' nt = true) (rest : List Char) (hrest : StartStop rest) :
+    parseStart true { seq := [] }
+      (optMods '{' '}' plus lab ++ (optMods '<' '>' plus st ++ (optMods '<' '>' plus iso ++
+        (optSection plus '?' unk ++ (optSection plus '-' nt ++ rest))))) =
+      .ok ({ seq := [], labile := lab, static := st, isotope := iso, unknown := unk, nterm := nt }, rest) := by
+  have hm5 : ModStop (optSection plus '-' nt ++ rest) := optSection_modStop plus '-' (Or.inr rfl) nt rest hrest.modStop
+  have hm4 : ModStop (optSection plus '?' unk ++ (optSection plus '-' nt ++ rest)) :=
+    optSection_modStop plus '?' (Or.inl rfl) unk _ hm5
+  have hn5 : (optSection plus '-' nt ++ rest).head? ≠ some '<' :=
+    optSection_head_ne plus '-' (Or.inr rfl) nt rest (hrest.head_ne '<' (by decide) (by decide))
+  have hn4 : (optSection plus '?' unk ++ (optSection plus '-' nt ++ rest)).head? ≠ some '<' :=
+    optSection_head_ne plus '?' (Or.inl rfl) unk _ hn5
+  have hm3 : ModStop (optMods '<' '>' plus iso ++ (optSection plus '?' unk ++ (optSection plus '-' nt ++ rest))) :=
+    optMods_modStop '<' '>' (by decide) (by decide) plus iso _ hm4
+  have hm2 : ModStop (optMods '<' '>' plus st ++ (optMods '<' '>' plus iso ++
+      (optSection plus '?' unk ++ (optSection plus '-' nt ++ rest)))) :=
+    optMods_modStop '<' '>' (by decide) (by decide) plus st _ hm3
+  -- 1. labile
+  have s1 : parseStart true { seq := [] }
+      (optMods '{' '}' plus lab ++ (optMods '<' '>' plus st ++ (optMods '<' '>' plus iso ++
+        (optSection plus '?' unk ++ (optSection plus '-' nt ++ rest))))) =
+      parseStart true { seq := [], labile := lab } (optMods '<' '>' plus st ++ (optMods '<' '>' plus iso ++
+        (optSection plus '?' unk ++ (optSection plus '-' nt ++ rest)))) := by
+    cases lab with
+    | none => simp [optMods]
+    | some l =>
+      obtain ⟨hne, hall⟩ := canonOptMods_some _ _ _ h1
+      rw [show optMods '{' '}' plus (some l) = serializeMods '{' '}' plus l from rfl,
+        parseStart_labile plus l hall _ _ hm2]
+      simp [appendOpt, hne]
+  -- 2. the `<…>` groups
+  have s2 : parseStart true { seq := [], labile := lab } (optMods '<' '>' plus st ++ (optMods '<' '>' plus iso ++
+        (optSection plus '?' unk ++ (optSection plus '-' nt ++ rest)))) =
+      parseStart true { seq := [], labile := lab, static := st, isotope := iso }
+        (optSection plus '?' unk ++ (optSection plus '-' nt ++ rest)) := by
+    rw [← List.append_assoc, optMods_eq, optMods_eq, ← serializeMods_append]
+    by_cases hg : st.getD [] ++ iso.getD [] = []
+    · have hs : st = none := by
+        cases st with
+        | none => rfl
+        | some l => simp at hg; obtain ⟨hl, _⟩ := hg; subst hl; simp [canonGlobal] at h2
+      have hi : iso = none := by
+        cases iso with
+        | none => rfl
+        | some l => simp at hg; obtain ⟨_, hl⟩ := hg; subst hl; simp [canonGlobal] at h3
+      subst hs hi
+      simp [serializeMods]
+    · have hall : (st.getD [] ++ iso.getD []).all (canonMod '<' '>') = true := by
+        rw [List.all_append, Bool.and_eq_true]
+        constructor
+        · have := canonGlobal_all _ _ h2
+          rw [List.all_eq_true] at this ⊢
+          exact fun m hm => canonStatic_canonMod m (this m hm)
+        · have := canonGlobal_all _ _ h3
+          rw [List.all_eq_true] at this ⊢
+          exact fun m hm => canonIsotope_canonMod m (this m hm)
+      rw [parseStart_globals plus _ hg hall _ _ hm4 hn4,
+        addGlobals_static_isotope _ _ (canonGlobal_all _ _ h2) (canonGlobal_all _ _ h3)]
+      simp only [appendOpt_none_getD _ _ h2, appendOpt_none_getD _ _ h3]
+  -- 3. unknown position
+  have s3 : parseStart true { seq := [], labile := lab, static := st, isotope := iso }
+        (optSection plus '?' unk ++ (optSection plus '-' nt ++ rest)) =
+      parseStart true { seq := [], labile := lab, static := st, isotope := iso, unknown := unk }
+        (optSection plus '-' nt ++ rest) := by
+    cases unk with
+    | none => simp [optSection]
+    | some l =>
+      obtain ⟨hne, hall⟩ := canonOptMods_some _ _ _ h4
+      simp only [optSection, List.append_assoc, List.cons_append, List.nil_append]
+      rw [parseStart_brackets plus l hne hall _ '?' (Or.inl rfl)]
+      simp [addMods]
+  -- 4. N-terminal
+  have s4 : parseStart true { seq := [], labile := lab, static := st, isotope := iso, unknown := unk }
+        (optSection plus '-' nt ++ rest) =
+      parseStart true { seq := [], labile := lab, static := st, isotope := iso, unknown := unk, nterm := nt } rest := by
+    cases nt with
+    | none => simp [optSection]
+    | some l =>
+      obtain ⟨hne, hall⟩ := canonOptMods_some _ _ _ h5
+      simp only [optSection, List.append_assoc, List.cons_append, List.nil_append]
+      rw [parseStart_brackets plus l hne hall _ '-' (Or.inr rfl)]
+      simp [addMods]
+  rw [s1, s2, s3, s4, parseStart_stop _ _ hrest]
+
+theorem serializeStart_eq (plus : Bool) (a : Annotation) :
+    serializeStart plus a = optMods '{' '}' plus a.labile ++ (optMods '<' '>' plus a.static ++
+      (optMods '<' '>' plus a.isotope ++ (optSection plus '?' a.unknown ++ optSection plus '-' a.nterm))) := by
+  unfold serializeStart optSection
+  cases a.unknown <;> cases a.nterm <;> simp
 
 end Pept
